@@ -38,6 +38,24 @@ CLAIMED["C03"] = dict(
     technique="TLC-enumerated expression trees with spec-computed values replayed into the real evaluator",
     design="7/C03")
 
+CLAIMED["C02"] = dict(
+    text="BBLoad is a TLA+ machine with one action per listener callback and the same process-wide tables; TLC builds scripts item by item while "
+         "the machine walks them (every script over a 20-item menu up to N items, random walks beyond) and checks in every final state that the "
+         "operational outcome equals the declarative fold BBDenote (one operation per executed statement in order, modes, arguments, metadata), that "
+         "modes is the union, and (action properties) that operations are append-only and deferred loop bodies are not executed while walking. Every "
+         "finished load is rendered, loaded by the real code and compared field by field with the specification's program.",
+    note="Trusted: TLC; harness/absyn.render (self-checked per case against the real parse tree); values compared by kind and value. Bounded menus.",
+    technique="TLC script-builder model of the listener machine (operational = denotational) + spec-generated scripts replayed into the real loader",
+    design="7/C02")
+CLAIMED["C06"] = dict(
+    text="On the same listener machine TLC checks Load(s) = Load(Unroll(s)) for every loop header x body in the menu (int/float ranges over 0..3 with "
+         "and without step incl. empty ranges; bracketed/parenthesised/bare lists of int, float, bool, str values and expressions, also of the wrong "
+         "type), that the loop variable is gone afterwards, and that deferred bodies are not executed during the walk. Each script is executed by the "
+         "real code as written AND textually unrolled, and both are compared with the specification.",
+    note="Trusted: TLC; renderer (self-checked). Loops whose values cannot be written as literals are compared with the specification only.",
+    technique="TLC listener-machine model (loop = textual unrolling as a spec equality) + replay of loop and unrolled scripts into the real loader",
+    design="7/C06")
+
 NOT_YET = {}
 
 
